@@ -65,9 +65,33 @@ def native_check(kind, n, env=None, seed=0):
     return fails
 
 
+def swap_native():
+    """swap() on concrete tensors for every region encoding vs column exchange."""
+    from qucumber.observables.entanglement import swap
+    n = 3
+    rows = torch.tensor(list(itertools.product((0., 1.), repeat=n)), dtype=torch.double)
+    s1, s2 = rows.clone(), torch.flip(rows, [0]).clone()
+    fails = []
+    for A in itertools.chain.from_iterable(itertools.combinations(range(n), k) for k in range(n + 1)):
+        A = list(A)
+        encs = [("list", A), ("array", np.array(A, dtype=int)), ("tensor", torch.tensor(A, dtype=torch.long))] + ([("int", A[0])] if len(A) == 1 else [])
+        for enc, Ae in encs:
+            a, b = swap(s1.clone(), s2.clone(), Ae)
+            for c in range(n):
+                exp_a, exp_b = (s2[:, c], s1[:, c]) if c in A else (s1[:, c], s2[:, c])
+                if not (torch.equal(a[:, c], exp_a) and torch.equal(b[:, c], exp_b)):
+                    fails.append(("swap(%s region %s) does not exchange exactly the region's columns" % (enc, A), c))
+                    break
+    return fails
+
+
 def replay(cfg, env):
-    if cfg["part"] in ("swap", "weight"):
+    if cfg["part"] == "weight":
         return {"reproduced": False, "note": "structural obligation, see detail"}
+    if cfg["part"] in ("swap", "apply"):
+        f = swap_native()
+        if f or cfg["part"] == "swap":
+            return {"reproduced": bool(f), "failed_clauses": [(a, str(b)) for a, b in f[:4]], "cfg": cfg}
     kinds = ["mixed"] if cfg.get("flavour") == "mixed" else ["positive", "complex", "mixed"] if cfg["part"] == "apply" else ["complex", "positive"]
     fails = []
     for kind in kinds:
